@@ -178,8 +178,8 @@ def run(ctx):
     pairs = []
     for pid in pids:
         prog = sp.progs[pid]["prog"]
-        pls = ["samepkg", "subpkg"]
-        if prog["localtypes"] or len(cw.reachable_decls(prog)) > 1 or ctx.rng.random() < 0.33:
+        pls = ["samepkg", "subpkg"] if not prog.get("extpkg") else ["subpkg"]
+        if not prog.get("extpkg") and (prog["localtypes"] or len(cw.reachable_decls(prog)) > 1 or ctx.rng.random() < 0.33):
             pls.append("ext_test")
         pairs += [(pid, base[pl]) for pl in pls]
     replay = cw.replay_pairs(ctx, sp)
@@ -194,7 +194,7 @@ def run(ctx):
     cw.T(ctx, "sources type-check")
     if errs:
         raise MachineryError("concretised source packages do not type-check (harness bug): %s" % json.dumps(dict(list(errs.items())[:3])))
-    entries = {cs.pkgpath: (cs.cid, cw.mockery_entry(cs, template="file://" + str(probe),
+    entries = {cw.ekey(cs): (cs.cid, cw.mockery_entry(cs, template="file://" + str(probe),
                                                       extra={"require-template-schema-exists": False, "formatter": "noop"})) for cs in cases}
     # two placements of the same program are two cases with their own package: keys are unique
     res = cw.run_chunks(ctx, world, entries, "p", chunk=60, par=4)
@@ -313,7 +313,7 @@ def run(ctx):
         sig = cs.sig()
         sig["template"] = "probe"
         ok_m, det = cs.mockery
-        detail = {"case": cs.brief(), "source": (world / cs.dir / "src.go").read_text(), "expected_data": sp.progs[cs.pid]["dm"]}
+        detail = {"case": cs.brief(), "source": cw.source_text(cs), "expected_data": sp.progs[cs.pid]["dm"]}
         n_eval += 1
         tags = set(cs.pred["modelissues"])
         for e_ in cs.pred["issues"]:          # template-independent deviations of the code-shaped model
